@@ -19,6 +19,16 @@ import time
 ROOT = os.path.dirname(os.path.dirname(os.path.abspath(__file__)))
 
 
+
+def copy_headers(repo, scratch):
+    """The committed headers (git archive HEAD), so that a seeded change being tried in /repo's working tree at the same
+    moment cannot leak into the copy; the working tree itself when /repo is not a git checkout."""
+    p = subprocess.run('git -C %s archive HEAD include | tar -x -C %s' % (repo, scratch), shell=True, stdout=subprocess.PIPE, stderr=subprocess.PIPE)
+    if p.returncode != 0 or not os.path.isdir(os.path.join(scratch, 'include')):
+        shutil.rmtree(os.path.join(scratch, 'include'), ignore_errors=True)
+        shutil.copytree(os.path.join(repo, 'include'), os.path.join(scratch, 'include'))
+
+
 def main():
     args = sys.argv[1:]
     budget = '12'
@@ -34,7 +44,7 @@ def main():
         prop = sid.split('-')[0]
         scratch = tempfile.mkdtemp(prefix='seedrun-%s-' % sid, dir='/tmp')
         try:
-            shutil.copytree(os.path.join(repo, 'include'), os.path.join(scratch, 'include'))
+            copy_headers(repo, scratch)
             patch = os.path.join(ROOT, 'seeded', sid, 'patch.diff')
             p = subprocess.run(['patch', '-p1', '-F3', '-s', '-i', patch], cwd=scratch, stdout=subprocess.PIPE, stderr=subprocess.STDOUT, text=True)
             if p.returncode != 0:
